@@ -179,12 +179,19 @@ func (br *blockReader) getType() byte {
 func newBlockReader(block []byte, headerOff uint32, tableBlockSize uint32, hashSize int) (*blockReader, error) {
 
 	fullBlockSize := tableBlockSize
+	if uint32(len(block)) < headerOff+4 {
+		return nil, fmtError
+	}
 	typ := block[headerOff]
 	if !isBlockType(typ) {
 		return nil, fmt.Errorf("reftable: unknown block type %c", typ)
 	}
 
 	sz := getU24(block[headerOff+1:])
+	if sz < headerOff+4+2 {
+		// no room for the restart count.
+		return nil, fmtError
+	}
 
 	if typ == blockTypeLog {
 		decompress := make([]byte, 0, sz)
@@ -200,8 +207,10 @@ func newBlockReader(block []byte, headerOff uint32, tableBlockSize uint32, hashS
 			return nil, err
 		}
 		// Have to use io.Copy. zlib stream has a terminator,
-		// which we must consume, so go until EOF.
-		if _, err := io.Copy(out, r); err != nil {
+		// which we must consume, so go until EOF. The data
+		// must inflate to exactly sz bytes; do not inflate
+		// more than that.
+		if _, err := io.Copy(out, io.LimitReader(r, int64(sz))); err != nil {
 			return nil, err
 		}
 
@@ -224,10 +233,16 @@ func newBlockReader(block []byte, headerOff uint32, tableBlockSize uint32, hashS
 		// the caller must also handle zlib (de)compression.
 		fullBlockSize = sz
 	}
+	if int(sz) > len(block) {
+		return nil, fmtError
+	}
 	block = block[:sz]
 
 	restartCount := binary.BigEndian.Uint16(block[len(block)-2:])
 	restartStart := len(block) - 2 - 3*int(restartCount)
+	if restartStart < int(headerOff)+4 {
+		return nil, fmtError
+	}
 	restartBytes := block[restartStart:]
 	block = block[:restartStart]
 
